@@ -9,6 +9,7 @@ import Dcg.Gen.CodeSites
 import Dcg.Gen.LoopSites
 import Dcg.Proofs.Loops
 import Dcg.Proofs.TemplateInv
+import Dcg.Proofs.Placeholder
 /-
 C01 — generation terminates and every emitted module is valid Python.
 
@@ -279,6 +280,63 @@ example : Dcg.Model.TemplateInv.identValueB "None".toList = false ∧
     Dcg.Model.TemplateInv.identValueB "class".toList = false ∧
     Dcg.Model.TemplateInv.identValueB [] = false ∧
     Dcg.Model.TemplateInv.identValueB "a b".toList = false := by decide +kernel
+
+/-! ### Where a name-less member can come from: the placeholders of `required`
+
+`Model/Placeholder` models `Parser.__override_required_field` (compared with the real pass on random
+class graphs on every run): the name-less placeholder that a `required` entry naming no declared
+member leaves behind is replaced by a copy of the base-class member or dropped. -/
+
+section Placeholder
+open Dcg.Model.Placeholder
+
+/-- **After the pass every member of a class model is an original member that was not a pending
+placeholder, or a copy of a base-class member.** -/
+theorem override_members (find : List Char → Option Fld) (fs : List Fld) (g : Fld)
+    (h : g ∈ overrideFields find fs) :
+    (g ∈ fs ∧ pending g = false) ∨
+    (∃ f ∈ fs, pending f = true ∧ ∃ o, find (f.orig.getD []) = some o ∧ g = { o with required := true }) :=
+  Dcg.Proofs.Placeholder.overrideFields_mem h
+
+/-- **No name-less member is left** — in every class model whose name-less members are all pending
+placeholders (a wire name that is not empty, an empty type) and whose base-class members all have
+names: every member after the pass has a name, i.e. `{{ field.name }}` receives a name for every
+member (`identifier_values_discharge_hypotheses` then needs only C07). -/
+theorem override_leaves_only_named (find : List Char → Option Fld) (fs : List Fld)
+    (hfs : ∀ f ∈ fs, f.name = none → pending f = true)
+    (hfind : ∀ n o, find n = some o → o.name ≠ none) :
+    ∀ g ∈ overrideFields find fs, g.name ≠ none := by
+  intro g hg
+  rcases override_members find fs g hg with ⟨hm, hp⟩ | ⟨f, _, _, o, ho, hgo⟩
+  · intro hn
+    rw [hfs g hm hn] at hp
+    cases hp
+  · rw [hgo]
+    exact hfind _ o ho
+
+/-- The hypothesis on the members cannot be dropped, and the code does not provide it: the
+placeholder of `required: [""]` has a wire name that is EMPTY, which the test
+`not model_field.original_name` treats like no wire name — it is not pending, it is kept, and it has
+no name (recorded finding C01-required-empty-name; `D = allOf [$ref B], required: [""]` renders
+`None: None`). -/
+theorem empty_required_name_survives :
+    overrideFields (fun _ => none) [⟨none, some [], false, true⟩] = [⟨none, some [], false, true⟩] ∧
+    pending ⟨none, some [], false, true⟩ = false := by decide
+
+/-- what the breadth-first lookup returns carries the wire name that was asked for -/
+theorem lookup_returns_the_wire_name (n : List Char) (k : Nat) (ms : List Mdl) (o : Fld)
+    (h : findField n k ms = some o) : o.orig = some n :=
+  Dcg.Proofs.Placeholder.findField_orig k ms o h
+
+/-- non-vacuity: a model with a base: `x` is re-declared from the base (marked required), `ghost` is
+dropped, the typed member stays; a model WITHOUT bases loses its placeholder too -/
+example : overrideModel 8 false (.mk [⟨none, some "x".toList, false, true⟩, ⟨none, some "ghost".toList, false, true⟩,
+      ⟨some "y".toList, some "y".toList, true, false⟩]
+      [.mk [⟨some "x".toList, some "x".toList, true, false⟩] []]) =
+    [⟨some "x".toList, some "x".toList, true, true⟩, ⟨some "y".toList, some "y".toList, true, false⟩] := by decide
+example : overrideModel 8 false (.mk [⟨none, some "ghost".toList, false, true⟩] []) = [] := by decide
+
+end Placeholder
 
 /-- non-vacuity of the class theorems: a real rendering of `Enum.jinja2` (no members, a
 description) that satisfies the hypotheses; what the block automaton accepts and rejects -/
